@@ -1,6 +1,7 @@
 import Verif.Lemmas.Await
 import Verif.Lemmas.Token
 import Verif.Model.ClientApi
+import Verif.Lemmas.AwaitSlow
 import Verif.Gen.Timing
 
 /-! # C14 — deadlines, cancellation and progress behave the same under any traffic
@@ -358,5 +359,29 @@ theorem c14_client_call_bounded (R : Int → Bool) (okInit : α → Bool) (b : B
         · have h1 := c14_deadline R c.init (shift start (ev.drop used))
           exact ⟨by intro oi h; simp at h; subst h; exact h1, by simp⟩
         · exact ih _ _ _ x hx
+
+/-! ## Progress callbacks that take time (`Model/AwaitSlow.lean`) -/
+open Verif.Model.AwaitSlow in
+/-- The deadline holds however long the caller's progress callbacks take: a request whose callback is
+still running when the deadline passes ends AT the deadline. -/
+theorem c14_deadline_slow_callbacks (R : Int → Bool) (cfg : Cfg α) (dur : Nat → Nat)
+    (ev : List (Nat × In α)) : (runD R cfg dur ev).time ≤ cfg.D := by
+  unfold runD
+  split
+  · simp
+  · exact loopD_time_le_deadline R cfg dur 0 ev _ _ _
+
+open Verif.Model.AwaitSlow in
+/-- ... and the callback is never invoked more often than there are matching progress
+notifications in the history (nothing invented, nothing reported twice), whatever the durations. -/
+theorem c14_slow_callbacks_nothing_invented (R : Int → Bool) (cfg : Cfg α) (dur : Nat → Nat)
+    (ev : List (Nat × In α)) :
+    (runD R cfg dur ev).callbacks.length
+      ≤ (ev.filter (fun x => isProgress cfg x.2)).length := by
+  unfold runD
+  split
+  · simp
+  · obtain ⟨more, h1, h2⟩ := loopD_callbacks_prefix R cfg dur 0 ev [.request] [] 0
+    rw [h1]; simpa using h2
 
 end Verif.Props.C14
